@@ -322,7 +322,36 @@ func DownloadHandler(w io.Writer, fullPath string, fileTransfer *FileTransfer, f
 	return nil
 }
 
+// activeUploads holds the full path of every file whose upload is being received.  After a client's connection has
+// been cut the transfer keeps consuming what had already arrived, so the size of the partial file is not final yet: an
+// upload request for that file (to resume it, or to start over) has to wait until the transfer has ended.
+var activeUploads = struct {
+	mu    sync.Mutex
+	paths map[string]int
+}{paths: make(map[string]int)}
+
+// UploadInProgress reports whether a transfer connection is receiving the file at fullPath right now.
+func UploadInProgress(fullPath string) bool {
+	activeUploads.mu.Lock()
+	defer activeUploads.mu.Unlock()
+
+	return activeUploads.paths[fullPath] > 0
+}
+
+func trackUpload(fullPath string, delta int) {
+	activeUploads.mu.Lock()
+	defer activeUploads.mu.Unlock()
+
+	activeUploads.paths[fullPath] += delta
+	if activeUploads.paths[fullPath] <= 0 {
+		delete(activeUploads.paths, fullPath)
+	}
+}
+
 func UploadHandler(rwc io.ReadWriter, fullPath string, fileTransfer *FileTransfer, fileStore FileStore, rLogger *slog.Logger, preserveForks bool) error {
+	trackUpload(fullPath, 1)
+	defer trackUpload(fullPath, -1)
+
 	var file *os.File
 
 	// A file upload has two possible cases:
